@@ -43,6 +43,53 @@ class Int(V):
         return hash((self.v, self.ty))
 
 
+class Lin(V):
+    """Linear expression  c + sum(coef * symbol)  over opaque non-negative quantities (lengths of opaque code blocks, an index into one).
+    Exact normal form: two Lin values are equal iff they are the same expression.  Overflow of the machine type is not modelled."""
+    __slots__ = ("terms", "c", "ty")
+
+    def __init__(self, terms=(), c=0, ty="usize"):
+        if isinstance(terms, dict):
+            terms = terms.items()
+        self.terms = tuple(sorted((k, v) for k, v in terms if v != 0))
+        self.c = c
+        self.ty = ty
+
+    @staticmethod
+    def of(v):
+        if isinstance(v, Lin):
+            return v
+        if isinstance(v, Int) and v.ty not in ("bool", "char"):
+            return Lin((), v.v, v.ty)
+        return None
+
+    def add(self, o, sign=1):
+        d = dict(self.terms)
+        for k, v in o.terms:
+            d[k] = d.get(k, 0) + sign * v
+        return Lin(d, self.c + sign * o.c, self.ty).norm()
+
+    def scale(self, k):
+        return Lin({s: v * k for s, v in self.terms}, self.c * k, self.ty).norm()
+
+    def norm(self):
+        return self if self.terms else Int(self.c, self.ty)
+
+    def __repr__(self):
+        parts = []
+        for s, v in self.terms:
+            parts.append(("%s" % s) if v == 1 else ("-%s" % s if v == -1 else "%d*%s" % (v, s)))
+        if self.c or not parts:
+            parts.append(str(self.c))
+        return "(" + " + ".join(parts).replace("+ -", "- ") + ")"
+
+    def __eq__(self, o):
+        return isinstance(o, Lin) and o.terms == self.terms and o.c == self.c
+
+    def __hash__(self):
+        return hash(("Lin", self.terms, self.c))
+
+
 class Flt(V):
     __slots__ = ("v",)
 
@@ -430,6 +477,12 @@ class Interp:
                 except ValueError:
                     pass
         if "static" in k:
+            # an immutable static with a literal initialiser: its value (a reference to it dereferences to the same value)
+            sf = self.lookup_fn(k["static"])
+            if sf is not None and sf.kind.startswith("Static") and "mutability: Not" in sf.kind and len(sf.blocks) == 1 and sf.blocks[0]["t"]["k"] == "return":
+                st = [x for x in sf.blocks[0]["s"] if "d" in x]
+                if len(st) == 1 and st[0]["d"] == {"l": 0} and "use" in st[0]["rv"] and "const" in st[0]["rv"]["use"] and "static" not in st[0]["rv"]["use"]["const"]:
+                    return self.const(sf, st[0]["rv"]["use"]["const"])
             return Opaque("static:" + k["static"], k["ty"])
         if "named" in k:
             return Opaque("const:" + k["named"], k["ty"])
@@ -504,6 +557,8 @@ class Interp:
                 if to in ("f64", "f32"):
                     return v
                 return Opaque("float-to-int", to)
+            if isinstance(v, Lin):
+                return Lin(v.terms, v.c, rv["to"])
             if rv["cast"].startswith(("Transmute", "PtrToPtr", "PointerCoercion")):
                 return v
             return v if isinstance(v, (Ptr, Closure, FnItem, Str)) else Opaque("cast(%s)" % getattr(v, "tag", "?"), rv["to"])
@@ -520,6 +575,8 @@ class Interp:
                     return Opaque("not")
                 if rv["un"] == "Neg":
                     return Int(-a.v, a.ty)
+            if isinstance(a, Lin) and rv["un"] == "Neg":
+                return a.scale(-1)
             if rv["un"] == "PtrMetadata":
                 if isinstance(a, Str):
                     return Int(len(a.s.encode()), "usize")
@@ -556,6 +613,20 @@ class Interp:
             if op in ("AddWithOverflow", "SubWithOverflow", "MulWithOverflow"):
                 f = {"AddWithOverflow": x + y, "SubWithOverflow": x - y, "MulWithOverflow": x * y}[op]
                 return Tup([Int(f, a.ty), FALSE])
+        if isinstance(a, Lin) or isinstance(b, Lin):
+            la, lb = Lin.of(a), Lin.of(b)
+            if la is not None and lb is not None:
+                if op in ("Add", "AddUnchecked", "Sub", "SubUnchecked"):
+                    return la.add(lb, 1 if op.startswith("Add") else -1)
+                if op in ("AddWithOverflow", "SubWithOverflow"):
+                    return Tup([la.add(lb, 1 if op.startswith("Add") else -1), FALSE])
+                if op in ("Mul", "MulWithOverflow") and (not la.terms or not lb.terms):
+                    r = lb.scale(la.c) if not la.terms else la.scale(lb.c)
+                    return Tup([r, FALSE]) if op == "MulWithOverflow" else r
+                if op in ("Eq", "Ne"):
+                    d = la.add(lb, -1)
+                    if isinstance(d, Int):
+                        return mkbool((d.v == 0) == (op == "Eq"))
         if isinstance(a, Flt) and isinstance(b, Flt):
             x, y = a.v, b.v
             if op in ("Eq", "Ne", "Lt", "Le", "Gt", "Ge"):
@@ -637,7 +708,20 @@ class Interp:
                 p.stack[-1][2] = t["target"]
             elif k == "return":
                 rv = self.read_local(p, fid, 0)
-                p.stack.pop()
+                ent = p.stack.pop()
+                if len(ent) > 6 and ent[6] is not None and p.stack:
+                    # a model asked for a sequence of calls of the same function (for_each over a scripted collection)
+                    rest, fin = ent[6]
+                    del p.frames[fid]
+                    if rest:
+                        self._enter(p, fn, rest[0], retp[0], retp[1], rett, wrap=retwrap)
+                        p.stack[-1].append((rest[1:], fin))
+                        continue
+                    rv = fin(self, p)
+                    if retp is not None:
+                        self.write_place(p, retp[0], retp[1], rv)
+                    p.stack[-1][2] = rett
+                    continue
                 if not p.stack:
                     self.finish(p, "return", rv)
                     return
@@ -924,6 +1008,19 @@ class Interp:
                 p.stack[-1][2] = tgt
                 return tgt is not None
             return self._enter(p, g, cargs, fid, t["dst"], tgt, wrap=wrap)
+        if isinstance(res, tuple) and res and res[0] == "enter_seq":
+            # ('enter_seq', g, [args1, args2, ...], finish): call g once per argument list, then deliver finish(interp, path)
+            _, g, arglists, fin = res
+            if tgt is None:
+                self.finish(p, "panic", "diverge")
+                return False
+            if not arglists:
+                self.write_place(p, fid, t["dst"], fin(self, p))
+                p.stack[-1][2] = tgt
+                return True
+            self._enter(p, g, arglists[0], fid, t["dst"], tgt)
+            p.stack[-1].append((list(arglists[1:]), fin))
+            return True
         if isinstance(res, tuple) and res and res[0] == "panic":
             self.finish(p, "panic", res[1], t.get("us") or t.get("sp"))
             return False
